@@ -27,6 +27,11 @@ Example ex_u16_bytes :
 Proof. vm_compute. reflexivity. Qed.
 Example ex_u16_back : M_utf16_decode (M_utf16_encode ex_u16) = ex_u16.
 Proof. vm_compute. reflexivity. Qed.
+Example ex_u16_wellformed_bytes :
+  wf_utf16be [0; 65; 216; 61; 222; 0] = true /\
+  M_utf16_encode (M_utf16_decode [0; 65; 216; 61; 222; 0]) = [0; 65; 216; 61; 222; 0] /\
+  wf_utf16be [216; 61; 0; 65] = false /\ wf_utf16be [0; 65; 7] = false.
+Proof. vm_compute. repeat split; reflexivity. Qed.
 (* ill-formed input: lone surrogates and an odd trailing byte *)
 Example ex_u16_illformed :
   M_utf16_decode [216; 61; 0; 65; 222; 0; 7] = [65533; 65; 65533].
